@@ -20,8 +20,9 @@ type Gen struct {
 	BadBias     int // percent of commands deliberately aimed at failure causes
 	Human       int // percent of commands run without --json
 	Known       map[string]bool
-	ForcePct    int // percent of creations whose first id draw is forced to collide
-	RepeatPct   int // percent of result attachments that are repeated verbatim
+	ForcePct    int  // percent of creations whose first id draw is forced to collide
+	Links       bool // file ops also create symlinks (C20)
+	RepeatPct   int  // percent of result attachments that are repeated verbatim
 	lastRes     *Cmd
 	wantCompact bool
 	// avoid triggers of open known findings in most runs (see DESIGN 5)
@@ -491,6 +492,18 @@ func (g *Gen) next2(m *Model) Step {
 
 func (g *Gen) fileOp() *FileOp {
 	g.nfile++
+	if g.Links && g.R.Chance(1, 5) {
+		switch g.R.Intn(4) {
+		case 0:
+			return &FileOp{Path: "lnk/tofile", Kind: "symlink", Target: "../r0.txt"}
+		case 1:
+			return &FileOp{Path: "lnk/todir", Kind: "symlink", Target: "../out"}
+		case 2:
+			return &FileOp{Path: "lnk/dangling", Kind: "symlink", Target: "nowhere"}
+		case 3:
+			return &FileOp{Path: "lnk/outside", Kind: "symlink", Target: "/etc/hostname"}
+		}
+	}
 	names := []string{"out/r%d.md", "docs/report%d.txt", "r%d.txt", "deep/er/est/f%d.log", "résumé %d.md", "out/空%d.txt"}
 	p := fmt.Sprintf(names[g.R.Intn(len(names))], g.R.Intn(4))
 	return &FileOp{Path: p, Kind: "file", Content: fmt.Sprintf("content %d %s\n", g.R.Intn(1000), g.text("body"))}
@@ -500,7 +513,9 @@ var goodFiles = []string{"out/r0.md", "out/r1.md", "docs/report0.txt", "r0.txt",
 
 func (g *Gen) addResult(c *Cmd) {
 	p := goodFiles[g.R.Intn(len(goodFiles))]
-	if g.bad() || g.R.Chance(1, 6) {
+	if g.Links && g.R.Chance(1, 6) {
+		p = g.oneOf("lnk/tofile", "lnk/todir", "lnk/dangling", "lnk/outside", "lnk/todir/r0.md")
+	} else if g.bad() || g.R.Chance(1, 6) {
 		p = g.oneOf("/etc/passwd", "../outside.txt", "out/../../x", ".ergo/plans.jsonl", ".ergo", "out", "missing.txt", "", "out/../r0.txt", "./r0.txt", "out//r0.md", ".ergo/../r0.txt", "..hidden/x", "out/..", "a/../../b")
 	}
 	c.RPath = sp(p)
